@@ -82,18 +82,23 @@ pub fn run(rec: &mut Recorder, w: &mut World, tier: &str, seed: u64) {
         let rules: Vec<Vec<String>> = (0..3).map(|_| gen_rule(&mut rng, &k, false)).collect();
         cfgs.push((name.to_string(), k, rules));
     }
-    for (name, k, rules) in &cfgs {
-        let m = model_of(k, E_ALLOW, false, "", false);
+    // every configuration twice: through `enforce`, and through `enforce_with_context("2")` on a copy of the sections under
+    // r2/p2/e2/m2 (rule-in-policy texts name the request tokens, so the eval kind stays with `enforce`)
+    for (name, k, rules, ctx) in cfgs.iter().flat_map(|(n, k, r)| [(n, k, r, false), (n, k, r, true)]) {
+        if ctx && k.name == "eval" { continue; }
+        let mut m = model_of(k, E_ALLOW, false, "", false);
+        if ctx { let b2 = model_of(k, E_ALLOW, false, "2", false); m.r.extend(b2.r); m.p.extend(b2.p); m.e.extend(b2.e); m.m.extend(b2.m); }
         let links = gen_links(&mut rng, k);
         rec.begin();
-        let lines = lines_of("p", rules, &k.g, &links);
+        let lines = lines_of(if ctx { "p2" } else { "p" }, rules, &k.g, &links);
         if new_enforcer(rec, w, &m, "memory", &lines, "", false) != "ok" { rec.fail("new-failed", format!("cannot build enforcer for {}", name)); continue; }
+        let name = &format!("{}{}", name, if ctx { "+context" } else { "" });
         let nr = k.rt.len();
         // requests of the right arity: one corpus value in one position, fixed values elsewhere
         let mut batch: Vec<Vec<String>> = vec![];
         let flush = |rec: &mut Recorder, w: &mut World, batch: &mut Vec<Vec<String>>, expect_err: bool| {
             if batch.is_empty() { return; }
-            let out = rec.exec(w, &format!("e.enfs\t{}", enc_reqs(batch)));
+            let out = rec.exec(w, &if ctx { format!("e.enfcs\t2\t{}", enc_reqs(batch)) } else { format!("e.enfs\t{}", enc_reqs(batch)) });
             if out.contains('p') { let i = out.find('p').unwrap(); rec.fail("enforce-panicked", format!("[{}] enforce panicked on request {:?}", name, batch[i])); }
             if expect_err && out.bytes().any(|c| c != b'e') { let i = out.bytes().position(|c| c != b'e').unwrap(); rec.fail("bad-request-not-error", format!("[{}] request {:?} must be an error, got {}", name, batch[i], &out[i..i + 1])); }
             rec.count_n("enforce:granted", out.bytes().filter(|&c| c == b't').count() as u64);
@@ -120,6 +125,35 @@ pub fn run(rec: &mut Recorder, w: &mut World, tier: &str, seed: u64) {
         flush(rec, w, &mut batch, true);
         rec.count(&format!("model:{}", name));
         rec.nontrivial_case(name);
+    }
+    // ---- (b') pattern role names (implementation only: a role-matching function on the role manager): a request value is
+    //      only ever the *key* of the matching function, never its pattern — whatever it contains, no panic; and with the prefix
+    //      matcher a subject is granted exactly when it is the role, the pattern node, or begins with the pattern's prefix ----
+    for mf in ["keyMatch", "keyMatch2"] {
+        let k = ks.iter().find(|k| k.name == "rbac").unwrap().clone();
+        let m = model_of(&k, E_ALLOW, false, "", false);
+        rec.begin();
+        m.emit(rec, w);
+        if rec.exec_impl_only(w, "e.new\tmemory\t-\t\t-") != "ok" { rec.fail("new-failed", "pattern-role stream: cannot build the enforcer".into()); continue; }
+        rec.exec_impl_only(w, &format!("e.rolematch\t{}\t-", mf));
+        let pat = if mf == "keyMatch" { "u_*" } else { "/u/:id" };
+        rec.exec_impl_only(w, &MOp::Add("g".into(), "g".into(), sv(&[pat, "admin"])).line());
+        rec.exec_impl_only(w, &MOp::Add("p".into(), "p".into(), sv(&["admin", "data1", "read"])).line());
+        let subs: Vec<&String> = keys.iter().chain(longer.iter().take(100)).collect();
+        for chunk in subs.chunks(64) {
+            let reqs: Vec<Vec<String>> = chunk.iter().map(|x| vec![sval(x), sval("data1"), sval("read")]).collect();
+            let out = rec.exec_impl_only(w, &format!("e.enfs\t{}", enc_reqs(&reqs)));
+            if out.contains('p') { let i = out.find('p').unwrap(); rec.fail("enforce-panicked", format!("[pattern roles, {}] enforce panicked on subject {:?}", mf, chunk[i])); }
+            if mf == "keyMatch" {
+                for (i, c) in out.bytes().enumerate() {
+                    let x = chunk[i].as_str();
+                    let want = x == "admin" || x == pat || x.starts_with("u_");
+                    if (c == b't') != want { rec.fail("pattern-role-decision", format!("[pattern roles, keyMatch, g {} admin] subject {:?} decided {} but it {} the pattern", pat, x, c as char, if want { "matches" } else { "does not match" })); }
+                }
+            }
+            rec.count_n("enforce:pattern-role-requests", chunk.len() as u64);
+        }
+        rec.nontrivial_case(&format!("pattern-roles|{}", mf));
     }
     // ---- (c) malformed stored rule / failing matcher: an error, never a grant ----
     for (what, rules, m_override) in [
